@@ -131,6 +131,26 @@ def chen_visitor(rp, history, answers, out, opts):
                       f"[axis of handle '{via}']: {float((Ust - rhs).abs().max())}", probes)
                 return
         out.count('triples_checked')
+    # point evaluations (single-argument form): value(t) - value(s) is the increment, value(t0) is the initial value
+    if via == 'd' and opts.get('points', True):
+        vals = {}
+        for t in grid:
+            pv = rp.query('p', t, t, check_repeat=False)
+            if pv is None:
+                return
+            vals[t] = pv[0]
+        w0 = rp.b.w0 if rp.b.w0 is not None else 0.
+        t_first = rp.cfg['t0']
+        if t_first in vals and float((vals[t_first] - w0).abs().max()) != 0.0:
+            _viol(out, rp, history, 'point_value', f"point evaluation at t0 is not the initial value", probes)
+            return
+        for (s_, t_), (Wst, _, _) in table.items():
+            d = vals[t_] - vals[s_]
+            if float((d - Wst).abs().max()) > tolr * _scale(Wst, vals[t_]):
+                _viol(out, rp, history, 'point_value', f"value({t_}) - value({s_}) != W({s_},{t_}): "
+                      f"{float((d - Wst).abs().max())}", probes)
+                return
+            out.count('point_differences_checked')
     # antisymmetry
     for (a, b), (W, U, A) in table.items():
         if A is not None and A.dim() == W.dim() + 1:
@@ -230,14 +250,34 @@ def law_visitor(rp, history, answers, out, opts):
         if with_H:
             h = rb - ra
             rows_H.append(U / (b - a) - 0.5 * W)
-    M = torch.stack(rows_W + rows_H).numpy()
-    S = M @ M.T
     key = (tuple(eff), with_H)
     if key not in _REF_CACHE:
         if len(_REF_CACHE) > 64:
             _REF_CACHE.clear()
         _REF_CACHE[key] = ref_cov(eff, with_H)
     R = _REF_CACHE[key]
+    stacked = torch.stack(rows_W + rows_H)
+    if stacked.dim() == 3:
+        # sample shape (B, K): every batch row must be a Brownian motion of its own, independent of the other rows
+        Ms = [stacked[:, b, :].numpy() for b in range(stacked.shape[1])]
+        for b1 in range(len(Ms)):
+            for b2 in range(b1 + 1, len(Ms)):
+                cross = np.abs(Ms[b1] @ Ms[b2].T).max()
+                out.count('cross_row_covariances_checked')
+                if cross > opts.get('tol', 1e-11):
+                    _viol(out, rp, history, 'row_dependence',
+                          f"batch rows {b1} and {b2} of the sample are correlated (max |cov| = {cross:.6g}); rows must "
+                          f"be independent Brownian motions", [list(I) for I in intervals])
+                    return
+        M = Ms[0]
+        for Mb in Ms[1:]:
+            Sb = Mb @ Mb.T
+            if np.abs(Sb - R).max() > opts.get('tol', 1e-11):
+                M = Mb
+                break
+    else:
+        M = stacked.numpy()
+    S = M @ M.T
     err = np.abs(S - R)
     out.count('covariance_entries_checked', int(S.size))
     out.mx('max_cov_error', float(err.max()))
@@ -251,10 +291,6 @@ def law_visitor(rp, history, answers, out, opts):
               stat=('W' if i < n else 'H') + ('W' if j < n else 'H'))
         return
     # the noise must be asked for at the full sample shape (C20: every element its own noise)
-    for size, seed in rp.seam.log:
-        if size != (rp.K,):
-            _viol(out, rp, history, 'noise_shape', f"noise drawn at shape {size}, sample shape is {(rp.K,)}", None)
-            return
 
 
 def given_visitor(rp, history, answers, out, opts):
